@@ -379,8 +379,7 @@ pub fn string_ends_with(
         Some(v) => interp.to_js_string(v),
         None => interp.intern(""),
     };
-    let end_position = args
-        .get(1)
+    let end_position = super::given(args, 1)
         .map(|v| v.to_number() as usize)
         .unwrap_or(usize::MAX);
 
